@@ -332,3 +332,170 @@ pub fn check_constraints(
     }
     bad
 }
+
+// ---------------------------------------------------------------------------------------------
+// Tables with several user-defined unique indexes (CREATE UNIQUE INDEX) on nullable columns
+// ---------------------------------------------------------------------------------------------
+
+/// one scenario / generated history on T(C0 INT PRIMARY KEY, C1, C2, C3) with unique indexes on
+/// `idx_cols` (created in that order), optionally an INSERT trigger (forces the row-by-row path)
+#[derive(Clone, Debug)]
+pub struct UCase {
+    pub name: String,
+    pub idx_cols: Vec<usize>,
+    pub trigger: bool,
+    /// statements that must succeed (content of T before the statements under test)
+    pub setup: Vec<String>,
+    /// statements under test: (prelude statements that must succeed, the statement, must it be rejected)
+    pub stmts: Vec<(Vec<String>, String, bool)>,
+}
+
+pub fn uidx_db(c: &UCase) -> Db {
+    let mut db = Db::new();
+    db.must("CREATE TABLE T (C0 INT PRIMARY KEY, C1 INT, C2 INT, C3 INT)");
+    db.must("CREATE TABLE S (C0 INT PRIMARY KEY, C1 INT, C2 INT, C3 INT)");
+    for col in &c.idx_cols {
+        db.must(&format!("CREATE UNIQUE INDEX UX{} ON T (C{})", col, col));
+    }
+    if c.trigger {
+        db.must("CREATE TABLE TLOG (K INT)");
+        let stmt = vibesql_ast::CreateTriggerStmt {
+            trigger_name: "TINS".into(),
+            timing: vibesql_ast::TriggerTiming::After,
+            event: vibesql_ast::TriggerEvent::Insert,
+            table_name: "T".into(),
+            granularity: vibesql_ast::TriggerGranularity::Row,
+            when_condition: None,
+            triggered_action: vibesql_ast::TriggerAction::RawSql("SELECT 1".into()),
+        };
+        vibesql_executor::TriggerExecutor::create_trigger(&mut db.db, &stmt).expect("create trigger");
+        db.log.push("-- AFTER INSERT ROW trigger TINS on T registered through TriggerExecutor::create_trigger: SELECT 1".into());
+    }
+    for q in &c.setup {
+        db.must(q);
+    }
+    db
+}
+
+/// unique-index columns of T holding a duplicate non-NULL value
+pub fn uidx_dups(db: &Db, idx_cols: &[usize]) -> Vec<String> {
+    let rows = db.scan("T").unwrap_or_default();
+    let mut bad = vec![];
+    for c in idx_cols {
+        let mut ks: Vec<String> = rows.iter().filter(|r| r[*c] != SqlValue::Null).map(|r| canon::val(&r[*c])).collect();
+        ks.sort();
+        let n = ks.len();
+        ks.dedup();
+        if n != ks.len() {
+            bad.push(format!("UX{} (C{})", c, c));
+        }
+    }
+    bad
+}
+
+fn urow(id: i64, over: &[(usize, Option<i64>)]) -> String {
+    let mut v: Vec<String> = vec![id.to_string(), (100 + id * 10 + 1).to_string(), (100 + id * 10 + 2).to_string(), (100 + id * 10 + 3).to_string()];
+    for (c, x) in over {
+        v[*c] = x.map(|i| i.to_string()).unwrap_or_else(|| "NULL".into());
+    }
+    format!("({})", v.join(", "))
+}
+
+/// deterministic scenarios: an EARLIER row of the statement has NULL in the key of index `a`, a
+/// LATER row duplicates a non-NULL key of index `b` (of an earlier row of the statement / of a
+/// stored row); every scenario with the roles of the indexes swapped, 2- and 3-index tables,
+/// through multi-row VALUES, the bulk INSERT … SELECT transfer, and the trigger (row-by-row) path
+pub fn uidx_scenarios() -> Vec<UCase> {
+    let mut out = vec![];
+    let layouts: Vec<(Vec<usize>, usize, usize)> = vec![
+        (vec![1, 2], 1, 2),
+        (vec![1, 2], 2, 1),
+        (vec![2, 1], 1, 2),
+        (vec![2, 1], 2, 1),
+        (vec![1, 2, 3], 1, 3),
+        (vec![1, 2, 3], 3, 1),
+        (vec![3, 2, 1], 2, 3),
+        (vec![3, 1, 2], 3, 2),
+    ];
+    for (idx_cols, a, b) in layouts {
+        for via in ["values", "bulk", "trigger"] {
+            for dup_of in ["batch", "stored", "stored_same_row", "batch_same_row"] {
+                let (setup, rows) = if dup_of == "stored_same_row" {
+                    // the row with the NULL key is itself the duplicate (of a stored row)
+                    (
+                        vec![format!("INSERT INTO T VALUES {}", urow(9, &[(a, Some(1)), (b, Some(5))]))],
+                        vec![urow(1, &[]), urow(2, &[(a, None), (b, Some(5))]), urow(3, &[])],
+                    )
+                } else if dup_of == "batch_same_row" {
+                    // … or of an earlier row of the statement
+                    (
+                        vec![format!("INSERT INTO T VALUES {}", urow(9, &[]))],
+                        vec![urow(1, &[(b, Some(5))]), urow(2, &[(a, None), (b, Some(5))]), urow(3, &[])],
+                    )
+                } else if dup_of == "batch" {
+                    (
+                        vec![format!("INSERT INTO T VALUES {}", urow(9, &[]))],
+                        vec![urow(1, &[]), urow(2, &[(a, None), (b, Some(5))]), urow(3, &[(a, Some(7)), (b, Some(5))])],
+                    )
+                } else {
+                    (
+                        vec![format!("INSERT INTO T VALUES {}", urow(9, &[(a, Some(1)), (b, Some(5))]))],
+                        vec![urow(1, &[]), urow(2, &[(a, None), (b, Some(6))]), urow(3, &[(a, Some(3)), (b, Some(5))])],
+                    )
+                };
+                let (prelude, stmt) = if via == "bulk" {
+                    (vec!["DELETE FROM S".to_string(), format!("INSERT INTO S VALUES {}", rows.join(", "))], "INSERT INTO T SELECT * FROM S".to_string())
+                } else {
+                    (vec![], format!("INSERT INTO T VALUES {}", rows.join(", ")))
+                };
+                // a clean statement afterwards must still be accepted (NULL keys never collide)
+                let ok_stmt = format!("INSERT INTO T VALUES {}, {}", urow(20, &[(a, None), (b, None)]), urow(21, &[(a, None), (b, Some(77))]));
+                out.push(UCase {
+                    name: format!("uidx {:?} nullkey=C{} dupkey=C{} via={} dup_of={}", idx_cols, a, b, via, dup_of),
+                    idx_cols: idx_cols.clone(),
+                    trigger: via == "trigger",
+                    setup,
+                    stmts: vec![(prelude, stmt, true), (vec![], ok_stmt, false)],
+                });
+            }
+        }
+    }
+    out
+}
+
+/// generated history: 1–3 unique indexes in random creation order, NULL-rich multi-row INSERTs
+/// (VALUES / bulk transfer), UPDATEs and DELETEs; `must reject` is unknown (false)
+pub fn gen_uidx(r: &mut Rng, k: u64) -> UCase {
+    let mut cols = vec![1usize, 2, 3];
+    r.shuffle(&mut cols);
+    cols.truncate(1 + r.below(3) as usize);
+    let trigger = r.chance(1, 4);
+    let mut next_id = 0i64;
+    let mut val = |r: &mut Rng| -> Option<i64> { if r.chance(1, 3) { None } else { Some(r.range(0, 4)) } };
+    let mut stmts = vec![];
+    for _ in 0..(6 + r.below(5)) {
+        let kind = r.below(10);
+        if kind < 6 {
+            let n = 1 + r.below(4);
+            let rows: Vec<String> = (0..n)
+                .map(|_| {
+                    next_id += 1;
+                    let id = if r.chance(1, 10) { r.range(1, next_id.max(1)) } else { next_id };
+                    urow(id, &[(1, val(r)), (2, val(r)), (3, val(r))])
+                })
+                .collect();
+            if kind < 2 {
+                stmts.push((vec!["DELETE FROM S".to_string(), format!("INSERT INTO S VALUES {}", rows.join(", "))], "INSERT INTO T SELECT * FROM S".to_string(), false));
+            } else {
+                stmts.push((vec![], format!("INSERT INTO T VALUES {}", rows.join(", ")), false));
+            }
+        } else if kind < 9 {
+            let c = 1 + r.below(3);
+            let v = val(r).map(|i| i.to_string()).unwrap_or_else(|| "NULL".into());
+            stmts.push((vec![], format!("UPDATE T SET C{} = {} WHERE C0 {} {}", c, v, if r.chance(1, 2) { "=" } else { ">=" }, r.range(1, next_id.max(1))), false));
+        } else {
+            stmts.push((vec![], format!("DELETE FROM T WHERE C0 <= {}", r.range(1, next_id.max(1))), false));
+        }
+    }
+    UCase { name: format!("uidx-gen{} {:?} trigger={}", k, cols, trigger), idx_cols: cols, trigger, setup: vec![], stmts }
+}
